@@ -302,3 +302,155 @@ pub async fn reload(input: &Value) -> Value {
 	};
 	json!({"fetched": fetched, "after": after})
 }
+
+// ------------------------------------------------------------------------------------------------
+// several endpoints (C11 "each endpoint independently"; ops am_load / am_sync, probe/ops_accountmulti.rs)
+//
+// ONE `Account` and one `Endpoint` object per endpoint name live in this process between ops, as they
+// do in the daemon between renewals.  `am_load` is a start-up (real `Account::load`, then
+// `add_endpoint_name` for every configured endpoint as `MainEventLoop::new` does); `am_sync` is what
+// `request_certificate` does up to and including `account.synchronize(endpoint)`.
+
+use crate::endpoint::Endpoint;
+use crate::hooks::{Hook, HookStdin, HookType};
+
+struct Multi {
+	account: Account,
+	endpoints: HashMap<String, Endpoint>,
+}
+
+static MULTI: std::sync::Mutex<Option<Multi>> = std::sync::Mutex::new(None);
+
+/// File hooks whose exit status the harness scripts: the pre (post) hook fails while the file
+/// `<flag_dir>/fail-pre` (`<flag_dir>/fail-post`) exists.
+fn flag_hooks(flag_dir: &str) -> Vec<Hook> {
+	let mk = |name: &str, types: [HookType; 2], flag: &str| Hook {
+		name: name.to_string(),
+		hook_type: types.iter().cloned().collect(),
+		cmd: "/bin/sh".to_string(),
+		args: Some(vec![
+			"-c".to_string(),
+			format!("test ! -e '{flag_dir}/{flag}'"),
+		]),
+		stdin: HookStdin::None,
+		stdout: None,
+		stderr: None,
+		allow_failure: false,
+	};
+	vec![
+		mk(
+			"verif-pre",
+			[HookType::FilePreCreate, HookType::FilePreEdit],
+			"fail-pre",
+		),
+		mk(
+			"verif-post",
+			[HookType::FilePostCreate, HookType::FilePostEdit],
+			"fail-post",
+		),
+	]
+}
+
+async fn multi_state(a: &Account) -> Value {
+	let file = match crate::storage::get_account_data(&a.file_manager).await {
+		Ok(b) => json!(hex(&b)),
+		Err(_) => Value::Null,
+	};
+	match dump(a) {
+		Ok(d) => json!({"dump": d, "info": info(a), "file_hex": file}),
+		Err(e) => json!({"dump_err": e, "file_hex": file}),
+	}
+}
+
+/// op am_load.  input: dir, name, contacts, key_type, sig_alg, eab, flag_dir?, endpoints [{name,
+/// url, configured?}] (`configured: false` = an `Endpoint` object exists but no certificate of this
+/// account uses it: `add_endpoint_name` is not called).
+pub async fn multi_load(input: &Value) -> Value {
+	match multi_load_inner(input).await {
+		Ok(v) => v,
+		Err(e) => json!({"err": e}),
+	}
+}
+
+async fn multi_load_inner(input: &Value) -> Result<Value, String> {
+	let dir = input["dir"].as_str().unwrap_or("");
+	let name = input["name"].as_str().unwrap_or("");
+	std::fs::create_dir_all(dir).map_err(|e| e.to_string())?;
+	let mut fm = file_manager(dir, name);
+	if let Some(fd) = input["flag_dir"].as_str() {
+		fm.hooks = flag_hooks(fd);
+	}
+	let contacts = contacts_of(&input["contacts"]);
+	let eab = eab_of(&input["eab"])?;
+	let mut a = Account::load(
+		&fm,
+		name,
+		&contacts,
+		&opt_s(&input["key_type"]),
+		&opt_s(&input["sig_alg"]),
+		&eab,
+	)
+	.await
+	.map_err(|e| e.message)?;
+	let mut endpoints = HashMap::new();
+	for e in input["endpoints"].as_array().cloned().unwrap_or_default() {
+		let n = e["name"].as_str().unwrap_or("");
+		let url = e["url"].as_str().unwrap_or("");
+		if e["configured"].as_bool().unwrap_or(true) {
+			a.add_endpoint_name(n);
+		}
+		let ep = Endpoint::new(n, url, true, &[], &[]).map_err(|x| x.message)?;
+		endpoints.insert(n.to_string(), ep);
+	}
+	let out = multi_state(&a).await;
+	*MULTI.lock().map_err(|e| e.to_string())? = Some(Multi {
+		account: a,
+		endpoints,
+	});
+	Ok(out)
+}
+
+/// The three lines of `acme_proto::http::refresh_directory` (a private module of `acme_proto`).
+async fn refresh_dir(ep: &mut Endpoint) -> Result<(), String> {
+	let url = ep.url.clone();
+	let response = crate::http::get(ep, &url)
+		.await
+		.map_err(|e| crate::http::HttpError::in_err(e).message)?;
+	ep.dir = response
+		.json::<crate::acme_proto::structs::Directory>()
+		.map_err(|e| e.message)?;
+	Ok(())
+}
+
+/// op am_sync.  input: endpoint (name of an `Endpoint` object of the last am_load).  Directory
+/// refresh, then the real `Account::synchronize`; the account stays in memory whatever the result.
+pub async fn multi_sync(input: &Value) -> Value {
+	let taken = match MULTI.lock() {
+		Ok(mut g) => g.take(),
+		Err(_) => None,
+	};
+	let mut st = match taken {
+		Some(s) => s,
+		None => return json!({"err": "no account loaded"}),
+	};
+	let name = input["endpoint"].as_str().unwrap_or("");
+	let result = {
+		let Multi { account, endpoints } = &mut st;
+		match endpoints.get_mut(name) {
+			None => json!({"no_endpoint_object": name}),
+			Some(ep) => match refresh_dir(ep).await {
+				Err(e) => json!({"directory_err": e}),
+				Ok(()) => match account.synchronize(ep).await {
+					Ok(()) => json!({"ok": true}),
+					Err(e) => json!({"sync_err": e.message}),
+				},
+			},
+		}
+	};
+	let mut out = multi_state(&st.account).await;
+	out["result"] = result;
+	if let Ok(mut g) = MULTI.lock() {
+		*g = Some(st);
+	}
+	out
+}
